@@ -2,6 +2,7 @@
 import z3
 from z3 import And, Function, Int, IntSort, Real, RealSort
 
+from ..contracts.events import MOMENTS, EventConstruction
 from ..contracts.loss_moments import LossEval
 from ..contracts.moments_matrix import Bound, Gamma, UMatrixLoop
 from ..pyvc import solve, verify
@@ -31,6 +32,18 @@ def lemma_gamma_mean(rep):
               "one entry per (event, group) pair that occurs, null events dropped (assumed; exercised by the bounded stand-in)")
 
 
+def _event_canaries(m, c):
+    if m == "TruePositiveRateParity" and c:
+        return [("conditions_on_the_wrong_label", verify.replace_expr("y_train == 1", "y_train == 0"))]
+    if m == "FalsePositiveRateParity" and not c:
+        return [("every_row_gets_an_event", verify.replace_expr("y_train.apply(lambda v: _LABEL + '=' + str(v)).where(y_train == 0)", "y_train.apply(lambda v: _LABEL + '=' + str(v))"))]
+    if m == "ErrorRateParity" and not c:
+        return [("utilities_swapped", verify.replace_expr("[y_train, 1 - y_train]", "[1 - y_train, y_train]"))]
+    if m == "DemographicParity" and c:
+        return [("raw_sensitive_features_handed_on", verify.replace_expr("sensitive_features=sf_train", "sensitive_features=sensitive_features"))]
+    return []
+
+
 def items(rep):
     lemma_gamma_mean(rep)
     return [(UMatrixLoop(), [("ratio_moved_to_the_event_term", verify.replace_expr("event_select / self.prob_event[e] + -self.ratio * group_event_select / self.prob_group_event[e, g]",
@@ -39,6 +52,7 @@ def items(rep):
             (Gamma(), [("sign_dropped", verify.replace_expr("-self.U.T.dot(pred) / self.total_samples", "self.U.T.dot(pred) / self.total_samples")),
                        ("base_utility_from_the_wrong_column", verify.replace_expr("self.utilities[:, 0]", "self.utilities[:, 1]"))]),
             (Bound(), []),
+            *[(EventConstruction(m, c), _event_canaries(m, c)) for m in MOMENTS for c in (False, True)],
             (LossEval("SquareLoss"), [("prediction_not_clipped", verify.replace_expr("np.clip(y_pred, self.min_val, self.max_val)", "y_pred"))]),
             (LossEval("AbsoluteLoss"), [("signed_difference", verify.replace_expr("np.abs(np.clip(y_true, self.min_val, self.max_val) - np.clip(y_pred, self.min_val, self.max_val))",
                                                                                   "np.clip(y_true, self.min_val, self.max_val) - np.clip(y_pred, self.min_val, self.max_val)"))])]
